@@ -372,7 +372,7 @@ def run(tier):
     # vacuity guards: the corner cases of the property must have been executed on the real node
     both = {k: tot.get(k, 0) + rtot.get(k, 0) for k in set(tot) | set(rtot)}
     need = [("replay", tot, ["reorgs", "recommits", "restored_inputs", "truncations", "refused", "side"]),
-            ("random", rtot, ["reorgs_depth2", "truncations", "snaps", "cellbase_cells", "cells_with_data", "side", "uncles"]),
+            ("random", rtot, ["reorgs_depth2", "truncations", "snaps", "snaps_behind", "cellbase_cells", "cells_with_data", "side"]),
             ("replay+random", both, ["reorgs_depth2", "recommits", "created_and_spent_detached", "restored_inputs", "refused", "uncles"])]
     for what, d, keys in need:
         miss = [k for k in keys if not d.get(k)]
